@@ -32,6 +32,7 @@ namespace hv
     {
         WiringPortRef ref;
         PT            type{PT::Int};
+        std::string   shape{"ts"};
     };
 
     using TryRes = TSB<"TryRes", Field<"exception", TS<NodeError>>, Field<"out", TS<Int>>>;
